@@ -222,6 +222,7 @@ def create_for_folder_subcommand(
     not_found_paths = existing_history.set_of_file_paths()
     renamed_files = existing_history.renamed_path_with_previous_path()
     not_found_paths = {_follow_renames(p, renamed_files) for p in not_found_paths}
+    recorded_path_kinds = existing_history.recorded_path_kinds()
     new_paths = set()
     missing_asc_mhl_folder = set()
 
@@ -249,7 +250,9 @@ def create_for_folder_subcommand(
                 dir_hash_context_lookup[hash_format] = DirectoryHashContext(hash_format)
         for item_name, is_dir in children:
             file_path = os.path.join(folder_path, item_name)
-            not_found_paths.discard(file_path)
+            # a folder in the place of a recorded file (or the other way round) does not stand in for it
+            if recorded_path_kinds.get(file_path) == is_dir:
+                not_found_paths.discard(file_path)
             for hash_list in existing_history.hash_lists:
                 for media_hash in hash_list.media_hashes:
                     if media_hash.path == existing_history.get_relative_file_path(file_path):
@@ -629,6 +632,7 @@ def verify_entire_folder(
     not_found_paths = existing_history.set_of_file_paths()
     renamed_files = existing_history.renamed_path_with_previous_path()
     not_found_paths = {_follow_renames(p, renamed_files) for p in not_found_paths}
+    recorded_path_kinds = existing_history.recorded_path_kinds()
 
     num_failed_verifications = 0
     num_new_files = 0
@@ -640,7 +644,9 @@ def verify_entire_folder(
     for folder_path, children in post_order_lexicographic(root_path, ignore_spec.get_path_spec()):
         for item_name, is_dir in children:
             file_path = os.path.join(folder_path, item_name)
-            not_found_paths.discard(file_path)
+            # a folder in the place of a recorded file (or the other way round) does not stand in for it
+            if recorded_path_kinds.get(file_path) == is_dir:
+                not_found_paths.discard(file_path)
             relative_path = existing_history.get_relative_file_path(file_path)
             history, history_relative_path = existing_history.find_history_for_path(relative_path)
             if is_dir:
@@ -1069,6 +1075,7 @@ def diff_entire_folder_against_full_history_subcommand(root_path, verbose, ignor
     not_found_paths = existing_history.set_of_file_paths()
     renamed_files = existing_history.renamed_path_with_previous_path()
     not_found_paths = {_follow_renames(p, renamed_files) for p in not_found_paths}
+    recorded_path_kinds = existing_history.recorded_path_kinds()
 
     num_failed_verifications = 0
     num_new_files = 0
@@ -1078,7 +1085,9 @@ def diff_entire_folder_against_full_history_subcommand(root_path, verbose, ignor
     for folder_path, children in post_order_lexicographic(root_path, ignore_spec.get_path_spec()):
         for item_name, is_dir in children:
             file_path = os.path.join(folder_path, item_name)
-            not_found_paths.discard(file_path)
+            # a folder in the place of a recorded file (or the other way round) does not stand in for it
+            if recorded_path_kinds.get(file_path) == is_dir:
+                not_found_paths.discard(file_path)
             relative_path = existing_history.get_relative_file_path(file_path)
             history, history_relative_path = existing_history.find_history_for_path(relative_path)
             if is_dir:
